@@ -934,6 +934,7 @@ def cat_worker(task: tuple) -> dict:
             fl = f"log={tl} step={ts} 01={z}"
             part.add("evaluations", 2)
             tr = T({"f": fl_other, "x": d}, transform_log=bool(tl), transform_step=bool(ts), transform_0_1=bool(z))
+            tr_json = T({"f": fl_other, "x": r1}, transform_log=bool(tl), transform_step=bool(ts), transform_0_1=bool(z))
             b = tr.bounds
             if b.shape != (n + 1, 2) or any((float(b[1 + j, 0]), float(b[1 + j, 1])) != (0.0, 1.0) for j in range(n)):
                 viol("box", fl, "bounds", observed=b.tolist())
@@ -950,6 +951,17 @@ def cat_worker(task: tuple) -> dict:
                     viol("transform-roundtrip", fl, "value-changed", value=repr(v), observed=repr(u))
                 elif first_match[i] == i and u is not v:
                     viol("transform-roundtrip", fl, "type-changed", value=repr(v), observed=repr(u))
+                # the same configuration as read back from a storage / parsed from JSON: an equal
+                # value that is another object, and the distribution after its JSON round trip
+                probes = [("after-json-distribution", tr_json, v)]
+                if isinstance(v, float):
+                    probes.append(("equal-value-other-object", tr, float(repr(v)) if not math.isnan(v) else float("nan")))
+                for what, trx, w in probes:
+                    part.add("roundtrips")
+                    o = outcome(trx.transform, {"f": 0.5, "x": w})
+                    if o[0] != "ok" or [float(t) for t in o[1][1:]] != want:
+                        viol("transform-roundtrip", fl, "answer-changed-" + what, value=repr(v),
+                             observed=o[1].tolist() if o[0] == "ok" else o)
             for pt in itertools.product(grid, repeat=n):
                 part.add("box_points")
                 u = tr.untransform(np.array((0.3,) + pt, dtype=np.float64))["x"]
